@@ -353,3 +353,110 @@ func TestC10_R_QuickBuilderWithFailingSize(t *testing.T) {
 		}
 	}
 }
+
+// lazyDirNode is a caller-implemented quickbuilder.Node that only builds its (sub-)directory, through the Builder it was
+// given, when it is first asked for its link or size - i.e. while the enclosing NewMapDirectory is collecting its entries.
+type lazyDirNode struct {
+	b     *quickbuilder.Builder
+	m     map[string]quickbuilder.Node
+	built quickbuilder.Node
+}
+
+func (n *lazyDirNode) build() quickbuilder.Node {
+	if n.built == nil {
+		n.built = n.b.NewMapDirectory(n.m)
+	}
+	return n.built
+}
+func (n *lazyDirNode) Link() datamodel.Link { return n.build().Link() }
+func (n *lazyDirNode) Size() (int64, error) { return n.build().Size() }
+
+// A quick-builder directory one of whose entries is a lazily built sub-directory (built through the same Builder from
+// inside the enclosing NewMapDirectory call): the same nested map must give the same link and size on every run, and the
+// link the plain builder gives for the same entries.
+func TestC10_R_QuickBuilderLazySubdirectory(t *testing.T) {
+	var first cid.Cid
+	var firstSize int64
+	for run := 0; run < 80; run++ {
+		st := NewStore()
+		var got cid.Cid
+		var gsz int64
+		var wantRoot cid.Cid
+		err := quickbuilder.Store(st.LinkSystem(), func(b *quickbuilder.Builder) error {
+			inner := map[string]quickbuilder.Node{}
+			for i := 0; i < 4; i++ {
+				inner[fmt.Sprintf("inner-%d", i)] = b.NewBytesFile(lcgBytes(5+i*30, byte(40+i), 0))
+			}
+			m := map[string]quickbuilder.Node{}
+			var es []entrySpec
+			for i := 0; i < 7; i++ {
+				f := b.NewBytesFile(lcgBytes(10+i*100, byte(i), 0))
+				m[fmt.Sprintf("file-%d", i)] = f
+				sz, _ := f.Size()
+				es = append(es, entrySpec{fmt.Sprintf("file-%d", i), cidOf(f.Link()), uint64(sz)})
+			}
+			eager := b.NewMapDirectory(inner)
+			esz, _ := eager.Size()
+			es = append(es, entrySpec{"lazy-sub", cidOf(eager.Link()), uint64(esz)})
+			m["lazy-sub"] = &lazyDirNode{b: b, m: inner}
+			d := b.NewMapDirectory(m)
+			if d == nil {
+				return fmt.Errorf("NewMapDirectory returned nil")
+			}
+			got = cidOf(d.Link())
+			gsz, _ = d.Size()
+			var werr error
+			wantRoot, _, werr = buildDir(NewStore(), es)
+			return werr
+		})
+		if err != nil {
+			t.Fatalf("C10 quick builder: %v", err)
+		}
+		if got != wantRoot {
+			t.Fatalf("C10: run %d: the quick builder built a map with a lazily built sub-directory as %s, the plain builder builds the same entries as %s", run, got, wantRoot)
+		}
+		if run == 0 {
+			first, firstSize = got, gsz
+		} else if got != first || gsz != firstSize {
+			t.Fatalf("C10: the quick builder built the same nested map as %s / %d in run %d and as %s / %d in run 0", got, gsz, run, first, firstSize)
+		}
+	}
+}
+
+// F21 (fixed): the identity "hash" from the multihash registry hands out its internal buffer from Sum(nil); the sharded
+// builder kept that slice per entry, so earlier entries' digests were overwritten by later names and the outcome (a
+// directory, or "too deep") depended on the order of the entries.
+func TestC10_R_F21_IdentityHasher(t *testing.T) {
+	outcome := func(names []string) string {
+		es := make([]entrySpec, len(names))
+		for i, n := range names {
+			es[i] = entryForKind(n, 1, 0)
+		}
+		c, sz, err := buildShardedHasher(NewStore(), es, 256, mh.IDENTITY)
+		if err != nil {
+			return "error"
+		}
+		return fmt.Sprintf("%s/%d", c, sz)
+	}
+	sets := [][]string{
+		{"short-name", strings.Repeat("L", 200)},
+		{"aaaaaaaaaaaa", "bbbbbbbbbbbb"},
+		{"alpha-000001", "bravo-000002", "charlie-0003", "delta-000004", "echo-0000005", "alpha-100001"},
+	}
+	for _, names := range sets {
+		first := outcome(names)
+		rev := make([]string, len(names))
+		for i := range names {
+			rev[len(names)-1-i] = names[i]
+		}
+		rot := append(append([]string{}, names[1:]...), names[0])
+		for _, other := range [][]string{rev, rot, names} {
+			if got := outcome(other); got != first {
+				t.Fatalf("C10: sharded build with the identity name hash: entries %q gave %s, the same entries as %q gave %s", names, first, other, got)
+			}
+		}
+	}
+	if outcome(sets[1]) == "error" {
+		t.Fatalf("C10: two 12-byte names that differ in their first byte could not be placed under the identity name hash")
+	}
+}
